@@ -39,15 +39,29 @@ def skip_sig_semantics(rep, ctx, keyprefix="C15"):
         PUT, POST = eng.opaque_id(ConstV("Method::PUT")), eng.opaque_id(ConstV("Method::POST"))
         ref = z3.Or(z3.And(method == PUT, L == z3.StringVal("/vmagentlog")), z3.And(method == POST, L == z3.StringVal("/machine/?comp=telemetrydata")))
         ret = r.ret.e if isinstance(r.ret, Scalar) else None
+        # prefix / suffix / substring tests on the url text are given their meaning (the exemption is an equality: a looser test
+        # shows up as a model of the query below)
+        preds = []
+        for e in r.events:
+            mm = re.search(r"str::(starts_with|ends_with|contains)(::<.*>)?$", e.callee) if e.kind == "call" else None
+            if mm and len(e.rargs) == 2 and isinstance(e.ret, Sym):
+                try:
+                    hay, pat = eng.to_str(e.rargs[0]), eng.to_str(e.rargs[1])
+                except Inconclusive:
+                    continue
+                t = {"starts_with": z3.PrefixOf(pat, hay), "ends_with": z3.SuffixOf(pat, hay), "contains": z3.Contains(hay, pat)}[mm.group(1)]
+                preds.append(e.ret.scalar("bool") == t)
+        if ret is None and isinstance(r.ret, Sym) and preds:
+            ret = r.ret.scalar("bool")
         if ret is None:
             rep.add(Query("should_skip_sig path %d returns a boolean" % i, "inconclusive", repr(r.ret), 0, "mirsym"))
             continue
         qn = "should_skip_sig path %d: result <=> (PUT & lower(url)=/vmagentlog) | (POST & lower(url)=/machine/?comp=telemetrydata)" % i
-        bad = add_query(rep, qn, r.pc + [ret != ref], key=keyprefix + ".skip-sig:semantics")
+        bad = add_query(rep, qn, r.pc + preds + [ret != ref], key=keyprefix + ".skip-sig:semantics")
         if bad:
             rep.add(Query(qn, "violated", "model %s" % bad[0], bad[1], "mirsym+z3", key=keyprefix + ".skip-sig:semantics", model=bad[0], reproduced=None,
                           replay=save_replay(rep.pid, "skip_sig_path%d.json" % i, json.dumps({"model": bad[0]}, indent=1))))
-        rr, _m, _dt, _zm = check_sat(r.pc + [ret])
+        rr, _m, _dt, _zm = check_sat(r.pc + preds + [ret])
         if rr == "sat":
             n_true += 1
     rep.add(Query("witness: should_skip_sig can be true", "witness-hit" if n_true else "witness-missed", "%d" % n_true, 0, "mirsym+z3"))
